@@ -180,7 +180,7 @@ pub fn unpaired_case(p: &UnpairedProbe, obs: &mut Obs) -> PResult {
     let (na, nb) = (p.na as f64, p.nb as f64);
     let (ta, tb) = (va / na, vb / nb);
     let se = (ta + tb).sqrt();
-    let dof = (ta + tb) * (ta + tb) / (ta * ta / (na + 1.0) + tb * tb / (nb + 1.0)) - 2.0;
+    let dof = crate::props::c04::eff_dof(ta, tb, na, nb);
     obs.eval();
     let i: Interval<f64> = match call(|| Unpaired::<f64>::ci(p.conf.get(), &da, &db)) {
         Out::Ok(i) => i,
@@ -195,6 +195,9 @@ pub fn unpaired_case(p: &UnpairedProbe, obs: &mut Obs) -> PResult {
     };
     let obs_err = 16.0 * f64::EPSILON * (c_obs.abs() + 1.0);
     // allowance for the rounding of the effective dof itself (a few ulps of dof): dF/d(dof) is tiny
+    if va == 0.0 || vb == 0.0 {
+        obs.class("unpaired/one-constant-sample");
+    }
     let b = if dof <= 4.0 {
         "dof1-4"
     } else if dof < 100.0 {
@@ -258,11 +261,20 @@ fn unpaired_strategy() -> impl Strategy<Value = UnpairedProbe> {
     let small = (Just(2u64), Just(2u64), 0u32..=4000).prop_map(|(na, nb, r)| (na, nb, 1.0f64, (2f64).powf(-(r as f64) / 400.0)));
     let mid = (1u64..=40, 1u64..=40, -2000i32..=2000).prop_map(|(ha, hb, r)| (2 * ha, 2 * hb, 1.0f64, (2f64).powf(r as f64 / 200.0)));
     let big = (0u32..=1000, 0u32..=1000, -600i32..=600).prop_map(|(ea, eb, r)| {
-        let na = 2 * ((2f64).powf(1.0 + ea as f64 / 1000.0 * 15.6) as u64 / 2).max(1);
-        let nb = 2 * ((2f64).powf(1.0 + eb as f64 / 1000.0 * 15.6) as u64 / 2).max(1);
+        let na = 2 * ((2f64).powf(1.0 + ea as f64 / 1000.0 * 17.0) as u64 / 2).max(1);
+        let nb = 2 * ((2f64).powf(1.0 + eb as f64 / 1000.0 * 17.0) as u64 / 2).max(1);
         (na, nb, 1.0f64, (2f64).powf(r as f64 / 200.0))
     });
-    (prop_oneof![3 => small.boxed(), 3 => mid.boxed(), 2 => big.boxed()], crate::gen::conf()).prop_map(|((na, nb, a, b), conf)| UnpairedProbe { na, nb, a: X(a), b: X(b), conf })
+    // one sample constant (scale 0) or of vastly smaller spread: the documented dof tends to n - 1 of the other one
+    let degenerate = prop_oneof![8 => Just(None), 1 => Just(Some(0.0f64)), 1 => Just(Some(crate::fl::pow2(-520)))];
+    (prop_oneof![3 => small.boxed(), 3 => mid.boxed(), 2 => big.boxed()], crate::gen::conf(), degenerate, any::<bool>()).prop_map(|((na, nb, a, b), conf, deg, swap)| {
+        let (a, b) = match deg {
+            Some(d) if swap => (d, b.max(1e-3)),
+            Some(d) => (a, d),
+            None => (a, b),
+        };
+        UnpairedProbe { na, nb, a: X(a), b: X(b), conf }
+    })
 }
 
 pub fn run(run: &mut Run) {
@@ -304,7 +316,7 @@ pub fn run(run: &mut Run) {
             }
         }
     }
-    for c in ["mean/appended/dof<10", "mean/appended/dof<2000", "mean/merged/dof~1e5", "mean/merged/dof>1e5", "mean/merged/dof<1e5", "unpaired/dof1-4", "unpaired/dof4-100", "unpaired/dof100-1e5", "proportion_z"] {
+    for c in ["mean/appended/dof<10", "mean/appended/dof<2000", "mean/merged/dof~1e5", "mean/merged/dof>1e5", "mean/merged/dof<1e5", "unpaired/dof1-4", "unpaired/dof4-100", "unpaired/dof100-1e5", "unpaired/one-constant-sample", "proportion_z"] {
         run.require_class(c);
     }
     run.assumptions.push("'equals' is checked within cdf_tol(dof, c) = 8 (2e-14 + 1.5e-15 dof^2) + 0.4 min(4e-13 dof / (2|c|), sqrt(4e-13 dof)) on the t branch and 2e-15 on the normal branch: the measured accuracy envelope of statrs 0.18's inverse CDF (DESIGN §4.3); slips inside that envelope are invisible".into());
